@@ -391,6 +391,11 @@ func init() {
 		i.assume(i.cx.And(i.cx.Sle(i.cx.BV(0, 64), ns), i.cx.Slt(ns, i.cx.BV(1000000000, 64))))
 		i.windowNow = structure{fromTerm(ns, types.Uint64), fromTerm(i.cx.Add(d, i.cx.BV(uint64(base+unixToInternal), 64)), types.Int64), nil}
 		i.hasWindowNow = true
+		i.windowBase, i.windowSpan = base, span
+		if i.now == 0 {
+			i.now = 1
+		}
+		i.windowEpoch = i.now
 		return nil
 	}
 	harnessAPI["vClockFixed"] = func(fr *frame, args []value) value {
@@ -490,6 +495,23 @@ const unixToInternal = (1969*365 + 1969/4 - 1969/100 + 1969/400) * 86400
 func (i *interpreter) nowValue() value {
 	if i.hasWindowNow {
 		timePkg := i.sh.Pkgs["time"]
+		if i.now > i.windowEpoch {
+			// the harness advanced the clock: a later (or equal) instant inside the window
+			i.windowEpoch = i.now
+			w := i.windowNow.(structure)
+			dn := fmt.Sprintf("now%d.delta", i.now)
+			nn := fmt.Sprintf("now%d.nsec", i.now)
+			d := i.newInput(dn, "int64", 64)
+			ns := i.newInput(nn, "int64", 64)
+			i.cx.SetVarRange(dn, big.NewInt(0), big.NewInt(i.windowSpan-1))
+			i.cx.SetVarRange(nn, big.NewInt(0), big.NewInt(999999999))
+			i.assume(i.cx.And(i.cx.Sle(i.cx.BV(0, 64), d), i.cx.Slt(d, i.cx.BV(uint64(i.windowSpan), 64))))
+			i.assume(i.cx.And(i.cx.Sle(i.cx.BV(0, 64), ns), i.cx.Slt(ns, i.cx.BV(1000000000, 64))))
+			ext := i.cx.Add(d, i.cx.BV(uint64(i.windowBase+unixToInternal), 64))
+			prevExt, prevNs := i.term(w[1]), i.term(w[0])
+			i.assume(i.cx.Or(i.cx.Slt(prevExt, ext), i.cx.And(i.cx.Eq(prevExt, ext), i.cx.Ule(prevNs, ns))))
+			i.windowNow = structure{fromTerm(ns, types.Uint64), fromTerm(ext, types.Int64), nil}
+		}
 		w := i.windowNow.(structure)
 		return structure{w[0], w[1], *i.globals[timePkg.Var("Local")]}
 	}
